@@ -60,6 +60,7 @@ def case_gen(draw, files=True):
         case['twin'] = draw(st.integers(0, 3)) == 0
         case['rewrite'] = draw(st.integers(0, 3)) == 0
         case['skip'] = draw(st.sampled_from([None, 0, 1, 2]))
+        case['odict'] = draw(st.integers(0, 3)) == 0
         case['encoding'] = draw(st.sampled_from(['utf-8', 'utf-8', 'utf-16', 'utf-32']))
         case['bigitem'] = draw(st.sampled_from([0, 0, 0, 66000, 140000]))
     return case
@@ -69,6 +70,8 @@ def compare(items, got, ctx):
     if len(got) != len(items):
         raise Violation('%d objects read back, %d written' % (len(got), len(items)), **ctx)
     for n, (a, b) in enumerate(zip(items, got)):
+        if type(a).__name__ == 'OrderedDict':
+            a = dict(a)
         if not strict_eq(a, b):
             raise Violation('object %d differs after the round trip' % n, wrote=a, read=b, **ctx)
 
@@ -138,6 +141,9 @@ def check_files(case):
         # poorly compressible, with multi-byte characters sprinkled in
         big['big'] = ''.join(hashlib.sha256(b'big%d' % j).hexdigest() + chr(0x905) for j in range(case['bigitem'] // 67))
         items.insert(len(items) // 2, big)
+    if case.get('odict'):
+        import collections
+        items = [collections.OrderedDict(it) for it in items]      # dict SUBCLASSES are JSON objects too (they read back as dicts)
     ctx = {k: case[k] for k in ('compression', 'repeat', 'pad', 'open_obj', 'encoding')}
     enc = case['encoding']
     ctx['items'] = case['items']
@@ -170,7 +176,7 @@ def check_files(case):
             self.f.close()
             return False
 
-    def my_open(f, mode, encoding=None):
+    def my_open(f, mode, encoding):          # the documented prototype: open_obj(filename, mode, encoding), all three required
         opened.append(mode)
         fo = open(f, mode)
         return ShortReads(fo) if case['open_obj'] == 'short' else fo
